@@ -109,7 +109,7 @@ Section LatchViews.
     repeat split; auto; try lia; intros; try discriminate; reflexivity.
   Qed.
 
-  Ltac eqd a b := destruct (Nat.eqb_spec a b); subst.
+  Ltac eqd a b := let E := fresh "E" in destruct (Nat.eqb_spec a b) as [E|E]; [first [subst a | subst b]|].
 
   Lemma acq_clock_ge (s : st) u :
     vle (clk s u)
@@ -138,7 +138,7 @@ Section LatchViews.
       + intros x a Ha. destruct (Harr x a Ha) as [A B]. split; auto.
         unfold fupd. eqd x u; auto. eapply vle_trans; [exact B|apply vle_inc].
       + intros x. unfold fupd. eqd x u.
-        * cbn. rewrite vinc_self. repeat split; auto; try lia. intros a Ha. congruence.
+        * subst f. cbn. rewrite vinc_self. repeat split; auto; try lia. intros a Ha. congruence.
         * apply Hdat.
       + intros w so Ho. destruct (Hop w so Ho) as (A & B & C). repeat split; auto.
         intros x a Ha Hle. specialize (C x a Ha Hle). unfold fupd. eqd w u; auto.
@@ -153,7 +153,7 @@ Section LatchViews.
       + intros t. unfold fupd. eqd t u; [lia|]. specialize (Hseen t). lia.
       + intros j m Hn. destruct j as [|j]; cbn in Hn.
         * inversion Hn; subst m. unfold rmw_msg. cbn [mval].
-          unfold read_val. destruct prev as [p|]; symmetry in Eprev; pose proof Eprev as Ep.
+          unfold read_val. rewrite <- Eprev. destruct prev as [p|]; symmetry in Eprev; pose proof Eprev as Ep.
           -- rewrite (Hval 0 p Ep). try fold L. lia.
           -- assert (L = 0) as HL by (rewrite HL0; destruct (ctr s); [reflexivity|discriminate]). rewrite HL. cbn. lia.
         * rewrite (Hval j m Hn). try fold L. try (f_equal; lia).
@@ -173,11 +173,11 @@ Section LatchViews.
         * destruct (Hrl j m Hn) as [r [Er Hr]]. exists r. split; auto.
           intros x a Ha Hle. unfold fupd in Ha |- *. eqd x u.
           -- inversion Ha; subst a. try fold L in Hle.
-             assert (j < L) by (apply nth_error_Some; congruence). lia.
+             assert (j < L) by (rewrite HL0; apply nth_error_Some; congruence). lia.
           -- apply (Hr x a Ha). lia.
       + intros x a Ha. unfold fupd in *. eqd x u.
         * inversion Ha; subst a. try fold L. split; [lia|].
-          eapply vle_trans; [|apply vle_inc]. rewrite <- Eprev. apply acq_clock_ge.
+          eapply vle_trans; [|apply vle_inc]. rewrite Eprev. apply acq_clock_ge.
         * destruct (Harr x a Ha) as [A B]. split; [lia|exact B].
       + intros k Hk. try fold L in Hk.
         destruct (Nat.eq_dec k (S L)) as [->|Hne].
@@ -185,19 +185,18 @@ Section LatchViews.
         * destruct (Hall k) as [x [Hx Ha]]; [try fold L; lia|]. exists x. split; auto.
           unfold fupd. eqd x u; [congruence|exact Ha].
       + intros x. destruct (Hdat x) as (Hd1 & Hd2 & Hd3 & Hd4). unfold fupd. eqd x u.
-        * repeat split; auto.
-          -- eapply Nat.le_trans; [exact Hd2|]. rewrite vinc_self.
-             pose proof (acq_clock_ge s u u) as G. rewrite Eprev in G. lia.
-          -- intros; discriminate.
+        * repeat split; auto; try (intros; discriminate).
+          eapply Nat.le_trans; [exact Hd2|]. rewrite vinc_self.
+          pose proof (acq_clock_ge s u u) as G. rewrite <- Eprev in G. lia.
         * repeat split; auto.
       + intros w so Ho. destruct (Hop w so Ho) as (A & B & C).
-        assert (so <= L) as HsoL by (specialize (Hseen w); fold L in Hseen; lia).
+        assert (so <= L) as HsoL by (specialize (Hseen w); lia).
         repeat split; auto.
         * unfold fupd. eqd w u; lia.
         * intros x a Ha Hle. unfold fupd in Ha |- *. eqd x u.
           -- inversion Ha; subst a. lia.
           -- specialize (C x a Ha Hle). eqd w u; auto.
-             eapply vle_trans; [exact C|]. eapply vle_trans; [|apply vle_inc]. rewrite <- Eprev. apply acq_clock_ge.
+             eapply vle_trans; [exact C|]. eapply vle_trans; [|apply vle_inc]. rewrite Eprev. apply acq_clock_ge.
     - (* ALoad *)
       rename Hok into Hw.
       set (i := pick true (ctr s) (clk s w) (seen s w) ch).
@@ -238,7 +237,7 @@ Section LatchViews.
         by (unfold ft_read in Er; inversion Er; reflexivity).
       constructor; cbn; auto.
       + intros x. unfold fupd at 1 2 3 4 5. eqd x u; [|apply Hdat].
-        cbn. repeat split; auto. intros Hn. congruence.
+        subst f. cbn. repeat split; auto. intros Hn. congruence.
       + rewrite Hrace. reflexivity.
   Qed.
 
@@ -267,3 +266,23 @@ Section LatchViews.
     - exists u. repeat split; auto. apply (C u k Ha). lia.
   Qed.
 End LatchViews.
+
+(* with a relaxed fast-path load the same disciplined client races: the publication needs the acquire *)
+Definition relaxed_witness : list act := [AWrite 0; AArrive 0; ALoad 1 0; ARead 1 0].
+Lemma fast_path_relaxed_refuted :
+  trace_ok 2 1%Z SeqCst Relaxed init relaxed_witness /\
+  race (run 2 1%Z SeqCst Relaxed init relaxed_witness) = true /\
+  race (run 2 1%Z SeqCst SeqCst init relaxed_witness) = false.
+Proof.
+  split; [|split; vm_compute; reflexivity].
+  cbn. repeat split; auto. exists 1, 1. repeat split; auto.
+Qed.
+
+(* and with a relaxed RMW (no release) likewise *)
+Lemma fast_path_relaxed_rmw_refuted :
+  trace_ok 2 1%Z Relaxed SeqCst init relaxed_witness /\
+  race (run 2 1%Z Relaxed SeqCst init relaxed_witness) = true.
+Proof.
+  split; [|vm_compute; reflexivity].
+  cbn. repeat split; auto. exists 1, 1. repeat split; auto.
+Qed.
